@@ -234,3 +234,111 @@ check.ALSO["C16"] = ["C02_VerdictDiffers", "C02_UnsatButSatisfiable", "C04_Panic
                      "C01_DupInSolution"]
 check.NONTRIVIAL["C16"] = ("captured", "a snapshot was captured and interrogated")
 META["C16"] = _m("For generated providers with sparse, shuffled ids and random seed choices (names / version sets / solvables, the highest-numbered version set included), TLC compares the captured id sets with the closure Snapshot!Capture and every answer of the SnapshotProvider (candidates, exclusions, preference order, matching / non-matching lists, dependency records with union members in order) with the live universe; ids returned by add_package_requirement must be fresh and every captured version set must answer unchanged afterwards; the problem is solved live and through the snapshot (before and after a serde round trip) and TLC requires equal verdicts and solutions valid against the live data.", "6 C16", "TLA+ trace validation (TLC) of SnapshotProvider answers against Snapshot.tla; paired solves")
+
+
+# ---------------------------------------------------------------------------
+# C17 the C++ binding
+# ---------------------------------------------------------------------------
+def build_cpp():
+    import subprocess
+    r = subprocess.run([os.path.join(vlib.VERIF, "cppdrv", "build.sh")], capture_output=True, text=True,
+                       env=vlib.env_offline())
+    if r.returncode != 0:
+        raise vlib.ToolError("C++ driver build failed:\n" + (r.stdout + r.stderr)[-3000:])
+
+
+def _c17_solves(prop, tier, seed, wd):
+    """Rust vs C++ on the same problems; returns (TraceResult, total, violations)."""
+    import subprocess
+    exe = vlib.build_harness("release")
+    n = 100 if tier == "quick" else 1500
+    allc = os.path.join(wd, "cpp.all")
+    total = vlib.gen_cases(exe, allc, "solve:base,locks,excl,hints,soft,midconflict,cyclic,unionoverlap", n, seed, "cppx",
+                           whitebox=False)
+    shards = vlib.split_file(allc, 8 if tier == "quick" else 16, wd, "cpp")
+    viol = []
+    traces = []
+    for sh in shards:
+        txt = sh[:-6] + ".txt"
+        subprocess.run([exe, "cpp-export", "--cases", sh, "--out", txt], check=True)
+        env = dict(os.environ)
+        env["ASAN_OPTIONS"] = "detect_leaks=1:abort_on_error=0:exitcode=23"
+        r = subprocess.run([os.path.join(vlib.VERIF, "cppdrv", "build", "solve_diff"), txt], capture_output=True,
+                           text=True, env=env, timeout=1200)
+        if r.returncode != 0:
+            d = os.path.join(vlib.REPLAYS, prop)
+            os.makedirs(d, exist_ok=True)
+            path = os.path.join(d, "solve_diff_sanitizer.txt")
+            open(path, "w").write(f"input: {txt}\nexit: {r.returncode}\n" + r.stderr[-6000:])
+            viol.append((f"solve through the C++ binding ended with exit code {r.returncode} (sanitizer report or crash)", path))
+        cpp = {}
+        for line in r.stdout.splitlines():
+            f = line.split()
+            if len(f) >= 3 and f[0] == "RESULT":
+                if f[2] == "sat":
+                    cpp[int(f[1])] = ("sat", [int(x) for x in f[4:]], "")
+                else:
+                    cpp[int(f[1])] = ("unsat", [], bytes.fromhex(f[3]).decode() if len(f) > 3 else "")
+        t = sh[:-6] + ".trace"
+        vlib.run_cases(exe, sh, t)
+        # place the C++ result of every case right after the Rust run of the same case
+        m = sh[:-6] + ".paired.trace"
+        with open(t) as fin, open(m, "w") as fout:
+            begin = None
+            for line in fin:
+                fout.write(line)
+                if '"ev":"begin"' in line:
+                    begin = json.loads(line)
+                elif line.startswith('{"ev":"end"}') and begin is not None:
+                    cid = begin["id"]
+                    if cid in cpp:
+                        k, sol, msg = cpp[cid]
+                        b = dict(begin)
+                        b["cfg"] = dict(begin["cfg"], same="result", group=begin["cfg"]["group"] or cid)
+                        b["profile"] = begin["profile"] + "+cpp"
+                        fout.write(json.dumps(b) + "\n")
+                        fout.write(json.dumps({"ev": "result", "kind": "unsat_nograph" if k == "unsat" else "sat", "phase": "",
+                                               "site": "", "msg": msg, "sol": sol, "v": 0,
+                                               "graph": {"nodes": [], "edges": [], "root": 0}, "lines": 0, "msglen": len(msg),
+                                               "dot": 0, "dots": 0}) + "\n")
+                        fout.write('{"ev":"end"}\n')
+                    begin = None
+        traces.append(m)
+    return traces, total, viol
+
+
+def _c17(prop, tier, seed, t0):
+    check.enable_rules(prop)
+    build_cpp()
+    wd = vlib.fresh_dir(os.path.join(vlib.WORK, prop))
+    traces, total, viol = _c17_solves(prop, tier, seed, wd)
+    import concurrent.futures as cf
+    res = vlib.TraceResult()
+    with cf.ThreadPoolExecutor(max_workers=12) as ex:
+        for fails, covers, begins, st in ex.map(lambda t: vlib.validate_trace(t, tag=prop), traces):
+            res.fails += fails
+            for (_i, _k, tags) in covers:
+                for tg in tags:
+                    res.cover[tg] += 1
+            res.runs += len(begins)
+            for (_i, _k, prof) in begins:
+                res.profiles[prof] += 1
+            res.states += st["distinct"]
+            res.transitions += st["states"]
+    res.traces = traces
+    extra, cow_viol = {}, []
+    if "cow_check" in globals():
+        extra, cow_viol = cow_check(prop, tier, seed, wd)
+    return check.finish_trace_check(prop, tier, seed, res, t0, total,
+                                    dict({"cpp_results_compared": res.cover.get("cpp_paired", 0),
+                                          "sanitizers": "AddressSanitizer + LeakSanitizer on the C++ drivers"}, **extra),
+                                    extra_violations=viol + cow_viol,
+                                    extra_states=extra.get("cow_states", 0), extra_transitions=extra.get("cow_transitions", 0))
+
+
+CHECKS["C17"] = _c17
+check.ALSO["C17"] = ["C02_UnsatButSatisfiable", "C01_V_RootReq", "C01_V_RootCons", "C01_V_Req", "C01_V_Cons",
+                     "C01_V_Excluded", "C01_V_Locked", "C01_V_OnePerName", "C01_DupInSolution", "C04_Panic", "C04_Crash"]
+check.NONTRIVIAL["C17"] = ("cpp_paired", "a problem solved through C++ and through Rust, results compared")
+META["C17"] = _m("Generated problems (everything the C++ interface can express: requirements, constraints, soft requirements, unions, favored / locked / excluded candidates, hint lists) are solved through resolvo::solve with a C++ DependencyProvider and through the Rust API with the equivalent provider; the two results are placed side by side in one trace and TLC requires the identical solution sequence or the identical error text (and judges both against the oracle). The C++ drivers are compiled from the freshly built binding with AddressSanitizer and LeakSanitizer, layout static_asserts included; the container protocol is model checked (CowVector.tla) and every transition of its state graph is replayed by a C++ driver through the real Vector / String on both sides of the FFI.", "6 C17", "TLA+ trace validation (TLC) of paired C++/Rust results; TLC state graph of the copy-on-write container protocol replayed in C++ under ASan",
+                 note="What TLC decides is the refcount / copy-on-write protocol and the result equality; memory errors are observed by the sanitizers during the runs, not proved absent. MSan / TSan are not used (single-threaded use).")
